@@ -135,4 +135,130 @@ Proof.
       * intros [|o] Ho; [exact E|]. cbn [skipn]. apply IH. cbn in Ho. lia.
 Qed.
 
+
+(* ---------------------------------------------------------------------- *)
+(* find_nth in general: the (k+1)-th non-overlapping match *)
+Notation first_from := (first_from ceq ic).
+Notation nth_match := (nth_match ceq ic).
+
+Lemma find_nth_skip needle : forall sk s i k,
+  find_nth ceq ic needle s i sk k =
+  if (sk <=? length s)%nat then find_nth ceq ic needle (skipn sk s) (i + Z.of_nat sk) O k else None.
+Proof.
+  induction sk as [|sk IH]; intros s i k.
+  - cbn [Nat.leb skipn]. now rewrite Z.add_0_r.
+  - destruct s as [|x r].
+    + destruct k; reflexivity.
+    + cbn [find_nth length skipn]. rewrite IH. change (S sk <=? S (length r))%nat with (sk <=? length r)%nat.
+      destruct (sk <=? length r)%nat; [|reflexivity]. f_equal. lia.
+Qed.
+
+Lemma find_first_ge needle s i j : find_nth ceq ic needle s i O O = Some j -> i <= j.
+Proof.
+  intros E. pose proof (find_first_spec needle s i) as H. rewrite E in H.
+  destruct H as (off & -> & _). lia.
+Qed.
+
+Lemma find_nth_decomp needle : forall s i k,
+  find_nth ceq ic needle s i O (S k) =
+  match find_nth ceq ic needle s i O O with
+  | None => None
+  | Some j =>
+      let o := (Z.to_nat (j - i) + Nat.max 1 (length needle))%nat in
+      if (o <=? length s)%nat
+      then find_nth ceq ic needle (skipn o s) (j + Z.of_nat (Nat.max 1 (length needle))) O k
+      else None
+  end.
+Proof.
+  induction s as [|x r IH]; intros i k.
+  - cbn [find_nth]. destruct (match_at needle []); [|reflexivity].
+    cbv zeta. rewrite Z.sub_diag. cbn [Z.to_nat Nat.add length].
+    destruct (Nat.max 1 (length needle)) eqn:E; [lia|reflexivity].
+  - cbn [find_nth]. destruct (match_at needle (x :: r)) eqn:Em.
+    + cbv zeta. rewrite Z.sub_diag. cbn [Z.to_nat Nat.add]. rewrite find_nth_skip.
+      assert (Hm : Nat.max 1 (length needle) = S (Nat.pred (length needle))) by lia.
+      rewrite Hm. cbn [length skipn]. change (S (Nat.pred (length needle)) <=? S (length r))%nat
+        with (Nat.pred (length needle) <=? length r)%nat.
+      destruct (Nat.pred (length needle) <=? length r)%nat; [|reflexivity]. f_equal. lia.
+    + rewrite IH. destruct (find_nth ceq ic needle r (i + 1) 0 0) as [j|] eqn:Ej; [|reflexivity].
+      pose proof (find_first_ge _ _ _ _ Ej) as Hge. cbv zeta.
+      replace (Z.to_nat (j - i)) with (S (Z.to_nat (j - (i + 1)))) by lia.
+      cbn [Nat.add length skipn].
+      change (S (Z.to_nat (j - (i + 1)) + Nat.max 1 (length needle)) <=? S (length r))%nat
+        with (Z.to_nat (j - (i + 1)) + Nat.max 1 (length needle) <=? length r)%nat.
+      reflexivity.
+Qed.
+
+Lemma first_from_unique needle t lo p q : first_from needle t lo p -> first_from needle t lo q -> p = q.
+Proof.
+  intros (Hp1 & Hp2 & Hp3) (Hq1 & Hq2 & Hq3).
+  destruct (Nat.lt_trichotomy p q) as [H|[H|H]]; [|exact H|].
+  - exfalso. apply (Hq3 p); [lia|exact Hp2].
+  - exfalso. apply (Hp3 q); [lia|exact Hq2].
+Qed.
+
+Lemma nth_match_occ needle t : forall k lo p,
+  nth_match needle t lo k p -> (lo <= p)%nat /\ occurs_at needle t p.
+Proof.
+  induction k as [|k IH]; intros lo p H.
+  - destruct H as (H1 & H2 & _). now split.
+  - destruct H as (p0 & (H1 & _) & H2). destruct (IH _ _ H2) as [H3 H4]. split; [lia|exact H4].
+Qed.
+
+(* first match from offset a, as first_from *)
+Lemma find_first_from needle t (a : nat) i : (a <= length t)%nat ->
+  match find_nth ceq ic needle (skipn a t) i O O with
+  | Some j => i <= j /\ first_from needle t a (a + Z.to_nat (j - i)) /\
+              (Z.to_nat (j - i) <= length t - a)%nat
+  | None => forall p, (a <= p)%nat -> ~ occurs_at needle t p
+  end.
+Proof.
+  intros Ha. pose proof (find_first_spec needle (skipn a t) i) as H.
+  assert (Hlen : length (skipn a t) = (length t - a)%nat) by apply skipn_length.
+  destruct (find_nth ceq ic needle (skipn a t) i 0 0) as [j|].
+  - destruct H as (off & -> & Hoff & Hm & Hmin).
+    replace (Z.to_nat (i + Z.of_nat off - i)) with off by lia.
+    split; [lia|]. split; [|lia]. split; [lia|]. split.
+    + rewrite skipn_skipn' in Hm. apply match_skipn_iff in Hm; [exact Hm|lia].
+    + intros o Ho Hocc. specialize (Hmin (o - a)%nat ltac:(lia)).
+      rewrite skipn_skipn' in Hmin. replace (a + (o - a))%nat with o in Hmin by lia.
+      pose proof (occurs_at_bound _ _ _ Hocc) as Hb.
+      apply match_skipn_iff in Hocc; [congruence|lia].
+  - intros o Ho Hocc. pose proof (occurs_at_bound _ _ _ Hocc) as Hb.
+    specialize (H (o - a)%nat ltac:(lia)). rewrite skipn_skipn' in H.
+    replace (a + (o - a))%nat with o in H by lia.
+    apply match_skipn_iff in Hocc; [congruence|lia].
+Qed.
+
+Lemma find_nth_spec needle t : forall k (a : nat) i, (a <= length t)%nat ->
+  match find_nth ceq ic needle (skipn a t) i O k with
+  | Some j => i <= j /\ nth_match needle t a k (a + Z.to_nat (j - i))
+  | None => forall p, ~ nth_match needle t a k p
+  end.
+Proof.
+  induction k as [|k IH]; intros a i Ha.
+  - pose proof (find_first_from needle t a i Ha) as H.
+    destruct (find_nth ceq ic needle (skipn a t) i 0 0) as [j|].
+    + destruct H as (H1 & H2 & _). now split.
+    + intros p (Hp1 & Hp2 & _). exact (H p Hp1 Hp2).
+  - rewrite find_nth_decomp. pose proof (find_first_from needle t a i Ha) as H.
+    destruct (find_nth ceq ic needle (skipn a t) i 0 0) as [j|].
+    + destruct H as (Hij & Hff & Hoff). cbv zeta. set (off := Z.to_nat (j - i)) in *.
+      set (m := Nat.max 1 (length needle)). rewrite skipn_length.
+      assert (Heq : (a + off + Nat.max 1 (length needle) = a + (off + m))%nat) by (subst m; lia).
+      destruct (off + m <=? length t - a)%nat eqn:Eg.
+      * apply Nat.leb_le in Eg. rewrite skipn_skipn'.
+        specialize (IH (a + (off + m))%nat (j + Z.of_nat m) ltac:(lia)).
+        destruct (find_nth ceq ic needle (skipn (a + (off + m)) t) (j + Z.of_nat m) 0 k) as [j'|].
+        -- destruct IH as [Hjj Hn]. split; [lia|]. exists (a + off)%nat. split; [exact Hff|].
+           replace (a + Z.to_nat (j' - i))%nat with (a + (off + m) + Z.to_nat (j' - (j + Z.of_nat m)))%nat by lia.
+           cbv zeta. rewrite Heq. exact Hn.
+        -- intros p (p0 & Hp0 & Hp). rewrite (first_from_unique _ _ _ _ _ Hp0 Hff) in Hp.
+           apply (IH p). rewrite <- Heq. exact Hp.
+      * apply Nat.leb_gt in Eg. intros p (p0 & Hp0 & Hp).
+        rewrite (first_from_unique _ _ _ _ _ Hp0 Hff) in Hp.
+        rewrite Heq in Hp. destruct (nth_match_occ _ _ _ _ _ Hp) as [Hlo Hocc]. apply occurs_at_bound in Hocc. lia.
+    + intros p (p0 & (Hp1 & Hp2 & _) & _). exact (H p0 Hp1 Hp2).
+Qed.
+
 End Facts.
